@@ -24,6 +24,12 @@ Print Assumptions zero_mean_centres.
 Example zero_mean_centres_nonvacuous : (@of_nat Qc _ 3%nat) <> 0%Qc.
 Proof. exact Tsne_Proof_Dense.zero_mean_centres_nonvacuous. Qed.
 
+(* centring does not change differences between samples (hence no distance, no similarity) *)
+Theorem zero_mean_keeps_differences : forall N (X : @buf Qc) n m d,
+  (zero_mean N X n d - zero_mean N X m d = X n d - X m d)%F.
+Proof. exact (@zero_mean_diff Qc _ _). Qed.
+Print Assumptions zero_mean_keeps_differences.
+
 (* computeSquaredEuclideanDistance after F10 (`+=`): DD[n,m] = |x_n - x_m|^2 *)
 Theorem sqdist_correct : forall D (X : @buf Qc) n m,
   sqdist_fixed D X n m = true_sqdist D X n m.
@@ -170,6 +176,16 @@ Theorem perplexity_bracket : forall lp ev st,
 Proof. exact bracket_inv. Qed.
 Print Assumptions perplexity_bracket.
 
+(* once both ends are known the search IS a bisection: beta is the midpoint and the width halves
+   every step (so 200 steps shrink it by 2^-200); that the target entropy lies inside needs the
+   monotonicity of the entropy in beta, which is analysis and is not proved *)
+Theorem perplexity_bisection_halves : forall lp ev beta a b,
+  (beta == (a + b) / 2)%Q ->
+  let '(beta', mi, ma) := next lp ev (beta, Some a, Some b) in
+  exists a' b', mi = Some a' /\ ma = Some b' /\ (b' - a' == (b - a) / 2)%Q /\ (beta' == (a' + b') / 2)%Q.
+Proof. exact bisection_halves. Qed.
+Print Assumptions perplexity_bisection_halves.
+
 Example perplexity_bracket_nonvacuous : bracket (1%Q, None, None).
 Proof. exact bracket_init. Qed.
 
@@ -271,6 +287,16 @@ Theorem bh_neighbours_exact_fixed : forall d N t q K,
   exists l, bh_row_fixed d t q K = Some l /\ is_knn d N q K l.
 Proof. exact bh_neighbours_exact_fixed_thm. Qed.
 Print Assumptions bh_neighbours_exact_fixed.
+
+(* create + search + consumer end to end: whatever uniform_random() and std::nth_element answer
+   (within their contracts), row q is over the K nearest other samples *)
+Theorem bh_rows_exact_built : forall d piv nth N q K,
+  metric_on (in_range N) d -> piv_ok piv -> nth_oracle_ok d nth ->
+  in_range N q -> (K + 1 <= N)%nat ->
+  exists t l, build d piv nth (S N) 0 (samples N) = Built t /\
+              bh_row_fixed d t q K = Some l /\ is_knn d N q K l.
+Proof. exact bh_rows_exact_built_thm. Qed.
+Print Assumptions bh_rows_exact_built.
 
 (* ---------------------------------------------------------------- sparse symmetrisation *)
 
